@@ -2,7 +2,7 @@
    example for the "implicit return" epilogue (a void function whose code ends in RET but can fall through: before the
    compiler fix the machine ran off the end of the function). *)
 From Coq Require Import ZArith NArith List Bool Lia.
-From NV Require Import Lang.Ast Lang.Ref Back.VmCompile Back.VmExec Back.VmSimEnv Back.VmSimDefs Back.VmSimMod Back.VmSimFinal.
+From NV Require Import Lang.Ast Lang.Ref Lang.Types Back.VmCompile Back.VmExec Back.VmSimEnv Back.VmSimDefs Back.VmSimMod Back.VmSimFinal.
 Import ListNotations.
 Local Open Scope N_scope.
 
@@ -164,4 +164,9 @@ Proof.
   exists M. split; [reflexivity|]. split; [vm_compute; reflexivity|]. split.
   - apply (vm_correct_oob ex_oob M 100); [exact E|exact ex_oob_small|unfold fuel_small; lia|vm_compute; reflexivity].
   - vm_compute in E. injection E as <-. vm_compute. reflexivity.
+Qed.
+
+Example ex_arrays_accepted : wt ex_arr = true /\ small_program ex_arr /\ wt ex_oob = true /\ small_program ex_oob.
+Proof.
+  split; [vm_compute; reflexivity|]. split; [exact ex_arr_small|]. split; [vm_compute; reflexivity|exact ex_oob_small].
 Qed.
